@@ -9,18 +9,19 @@ import (
 )
 
 // Value is one of:
-//   *Term            scalar: ints, bool (w=0), floats (as IEEE bits), uintptr
-//   StrV             string
-//   SliceV           slice
-//   *Backing         array value (value semantics: copied on load/store)
-//   StructV          struct value (copied on load/store)
-//   PtrV             pointer
-//   IfaceV           interface
-//   *MapObj          map (nil pointer = nil map)
-//   *ChanObj         channel
-//   *ssa.Function, *ssa.Builtin, *Closure, nil-func (FuncNil)   functions
-//   TupleV           multiple results
-//   *IterV           range iterator
+//
+//	*Term            scalar: ints, bool (w=0), floats (as IEEE bits), uintptr
+//	StrV             string
+//	SliceV           slice
+//	*Backing         array value (value semantics: copied on load/store)
+//	StructV          struct value (copied on load/store)
+//	PtrV             pointer
+//	IfaceV           interface
+//	*MapObj          map (nil pointer = nil map)
+//	*ChanObj         channel
+//	*ssa.Function, *ssa.Builtin, *Closure, nil-func (FuncNil)   functions
+//	TupleV           multiple results
+//	*IterV           range iterator
 type Value interface{}
 
 type Backing struct {
